@@ -226,7 +226,17 @@ def contexts(x):
     yield {"outer": {"__jsonclass__": ["decimal.Decimal", ["1.5"]], "extra": x}}
 
 
+# well-formed descriptors whose *members* are unusual: names the loader may refuse or fail to set (at whatever point it does, the argument is left as it was)
+ODD_MEMBERS = ["__doc__", "__class__", "__dict__", "__init__", "__eq__", "__slots__", "__module__", "__weakref__", "__jsonclass", "_private", "a b", "", "1", "é", "ro", "b", "a"]
+ODD_CLASSES = [["mc.ref.beans.Plain", []], ["mc.ref.beans.Slotted", []], ["mc.ref.beans.ReadOnly", []], ["decimal.Decimal", ["1.5"]], ["fractions.Fraction", [1, 3]]]
+
+
 def failure_cases(tier):
+    for ki in range(len(ODD_MEMBERS)):
+        for cls in ODD_CLASSES:
+            for val in ("v", [1], {"__jsonclass__": GOOD_BEAN, "z": 2}):
+                for ci in range(10):
+                    yield (("MEMBER", ki, cls, val), ci, "load")
     for bad in BAD:
         x = {"__jsonclass__": bad}
         n = len(list(contexts(x)))
@@ -241,6 +251,20 @@ def check_failure(case):
     bad, ci, what = case
     out = Out(cls="%s-failure" % what)
     if what == "load":
+        if isinstance(bad, tuple) and bad[0] == "MEMBER":
+            x = json.loads(json.dumps({"__jsonclass__": bad[2], "first": 1, ODD_MEMBERS[bad[1]]: bad[3], "last": [2]}))
+            bad = x["__jsonclass__"]
+            struct = list(contexts(x))[ci]
+            before = snapshot(struct)
+            try:
+                jsonclass.load(struct)
+                out.cls = "load-accepted"
+            except Exception as ex:
+                out.cls = "load-raises-%s" % type(ex).__name__
+            if snapshot(struct) != before:
+                out.bad("C15/load-modifies-its-argument-on-failure" if out.cls != "load-accepted" else "C15/load-modifies-its-argument",
+                        "load of a structure holding %r: argument is %r afterwards (%s)" % (case, struct, out.cls))
+            return out
         x = {"__jsonclass__": json.loads(json.dumps(bad))}
         struct = list(contexts(x))[ci]
         before = snapshot(struct)
@@ -320,7 +344,7 @@ META = {
     "rule": "roundtrip: every list/tuple/set/frozenset/dict of width <=2 over 16 primitive leaves (depth 1), every chain of 3 (thorough 4) container kinds in every order around 0-2 leaves, plus depth 2 over reduced alphabets "
     "(quick: width 1 over all reduced depth-1 terms and width 2 over one representative per constructor; thorough: width 2 over all reduced depth-1 "
     "terms, and depth 3 over representatives); failures: 21 malformed/unresolvable descriptors x 10 embedding contexts (plain containers, bean fields, "
-    "nested beans) and a bean whose serialisation method raises x 6 contexts; every roundtrip term is also dumped with each of dump()'s object-only parameters "
+    "nested beans), 17 unusual member names (dunder, private, non-identifier, read-only property, undeclared slot) x 5 classes x 3 member values x the same contexts in well-formed descriptors, and a bean whose serialisation method raises x 6 contexts; every roundtrip term is also dumped with each of dump()'s object-only parameters "
     "(ignore, ignore_attribute, serialize_method) set, which must not change the outcome for plain data; long-histories: 400 (thorough 3000) failing dumps / "
     "failing nested dumps / failing loads / successes / a mix, followed by round trips of 4 nested terms (the N-th use behaves like the first); every case is non-trivial; distinct by repr of the term",
     "bounds": {"quick": {"depth": 2, "width": 2}, "thorough": {"depth": 3, "width": 2}},
